@@ -12,7 +12,7 @@ import gens_b09 as G
 from common import hexs, rng, run_driver
 
 NAMES = ["prog.bas", "my_prog.bas", "my-prog.bas", "a b.bas", "9x.bas", "ecb_cls.bas", "x.y.bas", ".bas", "noext",
-         "UPPER.BAS", "é.bas", "a.b.c", "_u.bas", "-.bas", "tab\tname.bas"]
+         "UPPER.BAS", "é.bas", "a.b.c", "_u.bas", "-.bas", "tab\tname.bas", "game\n.bas", "x .bas", "nl\n", "q\r.bas"]
 
 
 def run_cli(d, name, data: bytes, flags, storage, sizes):
@@ -120,14 +120,51 @@ def config_oracle(case, impl):
     return None
 
 
+def _fresh(job):
+    """the same command line in a process of its own (nothing can have been left behind by an earlier call)"""
+    import json
+    import subprocess
+    from common import PY, REPO
+    here = os.path.dirname(os.path.abspath(__file__))
+    code = ("import sys, json, tempfile, shutil; sys.path.insert(0, %r); import suite_cli; j = json.load(sys.stdin); "
+            "d = tempfile.mkdtemp(prefix='verif-cli-'); "
+            "print(suite_cli.run_cli(d, j['name'], bytes.fromhex(j['data']), j['flags'], j['storage'], [tuple(x) for x in j['sizes']])); "
+            "shutil.rmtree(d, ignore_errors=True)" % here)
+    try:
+        r = subprocess.run([PY, "-c", code], input=json.dumps(job), capture_output=True, text=True, timeout=120,
+                           env=dict(os.environ, PYTHONPATH=REPO))
+        lines = [l for l in r.stdout.split("\n") if l.strip()]
+        return lines[-1] if lines else "internal ChildProcessError"
+    except subprocess.TimeoutExpired:
+        return "internal Timeout"
+
+
+def fresh_oracle(case, impl):
+    """C12 through the command line: a call of start(argv) gives what the same command line gives in a fresh process,
+    whatever was converted before in this one"""
+    f = case.get("aux", {}).get("fresh")
+    if f is not None and f != impl:
+        return (f"start({case['flags']!r} -s {case['storage']} …) after {case['aux'].get('position', 0)} earlier calls in the "
+                f"same process differs from the same command line in a fresh process")
+    return None
+
+
 def run(tier):
     import impl_b09
+    import multiprocessing as mp
     cs = cases(tier)
     d = tempfile.mkdtemp(prefix="verif-cli-")
     try:
         impl = [run_cli(d, c["name"], c["data"], c["flags"], c["storage"], c["sizes"]) for c in cs]
     finally:
         shutil.rmtree(d, ignore_errors=True)
+    picks = [k for k in range(len(cs)) if k % 3 == 1 or cs[k]["kind"].startswith("cli-config")]
+    with mp.Pool(16) as pool:
+        fresh = pool.map(_fresh, [{"name": cs[k]["name"], "data": cs[k]["data"].hex(), "flags": cs[k]["flags"],
+                                   "storage": cs[k]["storage"], "sizes": [list(x) for x in cs[k]["sizes"]]} for k in picks])
+    for k, f in zip(picks, fresh):
+        cs[k].setdefault("aux", {})["fresh"] = f
+        cs[k]["aux"]["position"] = k
     # model: newline translation, then (real front end) dump, then Model.Cli from there
     nl = run_driver(["cli nl " + hexs(c["data"].decode("latin-1").encode("utf-8")) for c in cs])
     reqs, idx = ["setlib " + hexs(impl_b09.lib_text().encode())], []
